@@ -35,7 +35,10 @@ def gen_run(rng, prop, index, tier):
                 ops.append({"op": "decode_from", "a": a, "src": src})
                 alive.append(a)
         elif r < 0.6 and cls in ("optical", "fpcal"):
-            ops.append({"op": "create", "a": a, "ids": ids(rng.randint(1, 3))})
+            op = {"op": "create", "a": a, "ids": ids(rng.randint(1, 3))}
+            if alive and rng.random() < 0.35:
+                op["share"] = rng.choice(alive)
+            ops.append(op)
             alive.append(a)
         else:
             ops.append({"op": "create", "a": a, "ids": None})
@@ -78,8 +81,13 @@ def gen_run(rng, prop, index, tier):
         elif r < 0.88 and cls == "fpcal":
             if rng.random() < 0.5:
                 k = rng.randint(1, 3)
-                ops.append({"op": "bulk", "a": a, "how": "add", "ids": ids(k),
-                            "chs": None if rng.random() < 0.5 else rng.sample(range(40, 90), k)})
+                q = rng.random()
+                chs = None if q < 0.45 else rng.sample(range(40, 90), k)
+                if q > 0.85 and k > 1:
+                    chs[-1] = chs[0]  # a channel repeated inside the list
+                elif q > 0.75:
+                    chs[rng.randrange(k)] = rng.randint(0, 3)  # probably taken already
+                ops.append({"op": "bulk", "a": a, "how": "add", "ids": ids(k), "chs": chs})
             else:
                 ops.append({"op": "bulk", "a": a, "how": "remove", "ks": [rng.randint(0, 9) for _ in range(rng.randint(1, 2))],
                             "by": rng.choice(("index", "object"))})
